@@ -10,7 +10,7 @@ from vp.wb import addr, coord, quote_sheet, range_cells
 S1, S2, SD = 'Sheet1', 'My Sheet', 'Data'
 # other names for the second sheet: characters that mean something to a regular expression, to python source text
 # or to the address syntax (never an apostrophe or an exclamation mark: the harness splits addresses at the last '!')
-S2_NAMES = (S2, S2, S2, 'P&L (EU)', 'Costs+1,2', 'a-b.c #3', '2024')
+S2_NAMES = (S2, S2, S2, 'P&L (EU)', 'Costs+1,2', 'a-b.c #3', '2024', 'in"put')
 
 NUMBERS = [0, 1, -1, 2, 3, 7, 10, 100, 0.5, -2.25, 3.0, 1e-7, 4096, -0.0, 12.75, -4]
 # (1e22 is deliberately absent: sums that cancel catastrophically depend on the order of addition,
